@@ -980,6 +980,8 @@ func run(c *core.Ctx) {
 		table = append(table, t[0])
 	}
 	load(table)
+	rereadByKey(c)
+	nullableBlob(c)
 	var steps []pred.GroupStep
 	if rep > 0 {
 		steps = genSteps(r, true)
